@@ -136,30 +136,65 @@ def tsaRevocationFails (chainLen : Nat) (rs : List C05.R) : Bool :=
   | .unknown => true                                        -- "... revocation status is unknown"
 
 /-- whether `verifyTimestamp` goes on to check the countersignature (`performTimestampVerification`) -/
-def performs (i : Input) : Bool :=
-  let perform := i.tsaListed
-  if perform && i.option == .afterCertExpiry then
-    if !(expiredLoop i.now i.chain) then false else perform
+def performsWith (tsaListed : Bool) (option : TsOption) (now : Int) (chain : List Window) : Bool :=
+  let perform := tsaListed
+  if perform && option == .afterCertExpiry then
+    if !(expiredLoop now chain) then false else perform
   else perform
 
-/-- the countersignature pipeline, steps 1-5 of `verifyTimestamp`, in the order of the code -/
-def pipeline (i : Input) : Bool :=
-  match i.token with
-  | none => true                                            -- 1. no countersignature
-  | some k =>
-    if !k.parses then true                                  -- 2. ParseSignedToken / Info
-    else if !k.imprintMatches then true                     --    info.Validate(signerInfo.Signature)
-    else if !i.tsaStoresLoad then true                      --    loadX509TSATrustStores
-    else if !i.tsaStoresNonEmpty then true                  --    len(trustTSACerts) == 0
-    else if !(k.tsaRootListed && k.tsaCertOk) then true     --    signedToken.Verify(roots = listed tsa stores, time = genTime)
-    else if !k.chainRulesOk then true                       -- 3. ValidateTimestampingCertChain
-    else if rangeLoop k.genTime (accuracyNs k) i.chain then true   -- 4. range inside every window
-    else if i.tsaRevocationError then true                  -- 5. ValidateContext error
-    else tsaRevocationFails i.tsaChainLen i.tsaRevocation
+def performs (i : Input) : Bool := performsWith i.tsaListed i.option i.now i.chain
 
-/-- `verifyTimestamp` (scheme notary.x509) -/
-def verifyTimestamp (i : Input) : Bool :=
-  if !(performs i) then validNowLoop i.now i.chain else pipeline i
+/-- the answers of the library calls of the countersignature pipeline, in the order of the code
+(this is what the tie to the translated source, Props/C06.lean `namespace Tie`, instantiates with the
+oracles' answers) -/
+structure Steps where
+  present : Bool             -- 1. len(TimestampSignature) != 0
+  parses : Bool              -- 2. ParseSignedToken and Info succeed
+  imprintMatches : Bool      --    info.Validate(signerInfo.Signature) succeeds
+  storesLoad : Bool          --    loadX509TSATrustStores succeeds
+  storesNonEmpty : Bool      --    len(trustTSACerts) != 0
+  tokenVerifies : Bool       --    signedToken.Verify(time = genTime, roots = the loaded certificates) succeeds
+  chainRulesOk : Bool        -- 3. ValidateTimestampingCertChain succeeds
+  genTime : Int              -- 4. timestamp.Value
+  acc : Int                  --    timestamp.Accuracy
+  revocationError : Bool     -- 5. ValidateContext fails
+  revocation : List C05.R    --    its results
+  tsaChainLen : Nat          --    for the TSA chain of this length
+  deriving Repr
+
+/-- the countersignature pipeline, steps 1-5 of `verifyTimestamp`, in the order of the code -/
+def pipelineSteps (chain : List Window) (s : Steps) : Bool :=
+  if !s.present then true                                   -- 1. no countersignature
+  else if !s.parses then true                               -- 2. ParseSignedToken / Info
+  else if !s.imprintMatches then true                       --    info.Validate(signerInfo.Signature)
+  else if !s.storesLoad then true                           --    loadX509TSATrustStores
+  else if !s.storesNonEmpty then true                       --    len(trustTSACerts) == 0
+  else if !s.tokenVerifies then true                        --    signedToken.Verify(roots = listed tsa stores, time = genTime)
+  else if !s.chainRulesOk then true                         -- 3. ValidateTimestampingCertChain
+  else if rangeLoop s.genTime s.acc chain then true         -- 4. range inside every window
+  else if s.revocationError then true                       -- 5. ValidateContext error
+  else tsaRevocationFails s.tsaChainLen s.revocation
+
+/-- the steps as the scenario describes them -/
+def Input.steps (i : Input) : Steps :=
+  match i.token with
+  | none =>
+    { present := false, parses := false, imprintMatches := false, storesLoad := i.tsaStoresLoad,
+      storesNonEmpty := i.tsaStoresNonEmpty, tokenVerifies := false, chainRulesOk := false, genTime := 0, acc := 0,
+      revocationError := i.tsaRevocationError, revocation := i.tsaRevocation, tsaChainLen := i.tsaChainLen }
+  | some k =>
+    { present := true, parses := k.parses, imprintMatches := k.imprintMatches, storesLoad := i.tsaStoresLoad,
+      storesNonEmpty := i.tsaStoresNonEmpty, tokenVerifies := k.tsaRootListed && k.tsaCertOk,
+      chainRulesOk := k.chainRulesOk, genTime := k.genTime, acc := accuracyNs k,
+      revocationError := i.tsaRevocationError, revocation := i.tsaRevocation, tsaChainLen := i.tsaChainLen }
+
+def pipeline (i : Input) : Bool := pipelineSteps i.chain i.steps
+
+/-- `verifyTimestamp` (scheme notary.x509) as a function of the clock, the chain, the policy and the steps -/
+def verifyTimestampWith (now : Int) (chain : List Window) (tsaListed : Bool) (option : TsOption) (s : Steps) : Bool :=
+  if !(performsWith tsaListed option now chain) then validNowLoop now chain else pipelineSteps chain s
+
+def verifyTimestamp (i : Input) : Bool := verifyTimestampWith i.now i.chain i.tsaListed i.option i.steps
 
 /-- `verifyAuthenticTimestamp`: the scheme split -/
 def verifyAuthenticTimestamp (i : Input) : Bool :=
